@@ -8,8 +8,10 @@ mod cdiff;
 mod cdiff_env;
 mod codec;
 mod conc;
+mod dag;
 mod env;
 mod findings;
+mod human;
 mod infer;
 mod jets;
 mod policy;
@@ -77,6 +79,8 @@ fn main() {
             "conc" => conc::run(&toks[1..]),
             "c03" => cdiff::run_c03(&toks[1..]),
             "c06" => cdiff::run_c06(&toks[1..]),
+            "dag" => dag::run(&toks[1..]),
+            "human" => human::run(&toks[1..]),
             other => {
                 eprintln!("unknown command {}", other);
                 std::process::exit(2);
